@@ -154,9 +154,9 @@ def _rescaled_log_likelihood(
     scaling factors [...,K,1,N] collected during the traversal."""
     category_likelihoods = freqs.unsqueeze(-3) @ root_partials
     log_scalers = torch.cat(scalers, -2).log().sum(dim=-2, keepdim=True)
-    # categories with likelihood zero do not take part
+    # categories with likelihood (or probability) zero do not take part
     log_scalers = torch.where(
-        category_likelihoods > 0,
+        props * category_likelihoods > 0,
         log_scalers,
         torch.full_like(log_scalers, -float('inf')),
     )
